@@ -3,38 +3,40 @@
    brush-core/src/shell/parsing.rs parse_string_impl (64-entry caches keyed by (text, options)), arithmetic.rs (keyed by text;
    arithmetic parsing takes no options).
 
+   Several entry points (KINDS: word grammar, here-document-body grammar, parameter, brace, assignment ...) read the same texts;
+   a result is a function of (kind, text, options) and a memo shared between kinds must carry the kind in its key.
    cache   LRU list of [key, val], most recent first, at most Capacity entries
-   hist    the lookups made so far: <<text, opts>> or "flood" (enough other lookups to evict everything)
+   hist    the lookups made so far: <<kind, text, opts>> or "flood" (enough other lookups to evict everything)
    A lookup returns the cached value when its KEY is present, else parses, stores and returns.
    Transparent:  every lookup returns Parse(text, opts) - what a process that never parsed anything before would return.
    Parse is abstract: its result may depend on every option, so results for different (text, opts) are different values.
-   DEV KeyOmitsOptions: the key is the text alone.                                                              *)
+   DEV KeyOmitsOptions: the key is (kind, text).   DEV KeyOmitsKind: the key is (text, options).                                                              *)
 EXTENDS Naturals, Sequences, FiniteSets, TLC
 
-CONSTANTS Texts, Opts, Capacity, MaxHist, DEV
+CONSTANTS Kinds, Texts, Opts, Capacity, MaxHist, DEV
 
 VARIABLES cache, hist, last
 vars == <<cache, hist, last>>
 
-Parse(t, o) == <<"tree-of", t, o>>
-Key(t, o) == IF "KeyOmitsOptions" \in DEV THEN <<t>> ELSE <<t, o>>
+Parse(k, t, o) == <<"tree-of", k, t, o>>
+Key(k, t, o) == <<IF "KeyOmitsKind" \in DEV THEN "any" ELSE k, t, IF "KeyOmitsOptions" \in DEV THEN "any" ELSE o>>
 Find(k) == {i \in 1..Len(cache) : cache[i].key = k}
-Init == cache = <<>> /\ hist = <<>> /\ last = [t |-> "", o |-> "", r |-> Parse("", "")]
-Lookup(t, o) ==
+Init == cache = <<>> /\ hist = <<>> /\ last = [k |-> "", t |-> "", o |-> "", r |-> Parse("", "", "")]
+Lookup(k, t, o) ==
   /\ Len(hist) < MaxHist
-  /\ hist' = Append(hist, <<t, o>>)
-  /\ LET k == Key(t, o)  F == Find(k) IN
+  /\ hist' = Append(hist, <<k, t, o>>)
+  /\ LET ky == Key(k, t, o)  F == Find(ky) IN
      IF F # {}
      THEN LET i == CHOOSE j \in F : TRUE IN
-          /\ last' = [t |-> t, o |-> o, r |-> cache[i].val]
+          /\ last' = [k |-> k, t |-> t, o |-> o, r |-> cache[i].val]
           /\ cache' = <<cache[i]>> \o SubSeq(cache, 1, i - 1) \o SubSeq(cache, i + 1, Len(cache))
-     ELSE /\ last' = [t |-> t, o |-> o, r |-> Parse(t, o)]
-          /\ cache' = SubSeq(<<[key |-> k, val |-> Parse(t, o)]>> \o cache, 1, IF Len(cache) + 1 > Capacity THEN Capacity ELSE Len(cache) + 1)
+     ELSE /\ last' = [k |-> k, t |-> t, o |-> o, r |-> Parse(k, t, o)]
+          /\ cache' = SubSeq(<<[key |-> ky, val |-> Parse(k, t, o)]>> \o cache, 1, IF Len(cache) + 1 > Capacity THEN Capacity ELSE Len(cache) + 1)
 Flood == /\ Len(hist) < MaxHist /\ hist # <<>> /\ hist[Len(hist)] # <<"flood">>
          /\ hist' = Append(hist, <<"flood">>) /\ cache' = <<>> /\ UNCHANGED last
-Next == (\E t \in Texts, o \in Opts : Lookup(t, o)) \/ Flood
+Next == (\E k \in Kinds, t \in Texts, o \in Opts : Lookup(k, t, o)) \/ Flood
 Spec == Init /\ [][Next]_vars
 
-Transparent == last.r = Parse(last.t, last.o)
+Transparent == last.r = Parse(last.k, last.t, last.o)
 Bounded == Len(cache) <= Capacity
 =============================================================================
